@@ -245,6 +245,16 @@ def run(ctx):
     except Exception:
         mismatches.append(dict(oracle_fail=False, what="call-graph check crashed", harness_error=traceback.format_exc()[-2000:]))
 
+    # 5. execution stream: argument VALUES at and beyond their bounds, no lookup failure at any depth
+    try:
+        import c04_exec
+        ex = c04_exec.run(ctx, T)
+        mismatches += ex["mismatches"]
+        extra.update(ex["extra"])
+        ncalls += ex["evaluations"]
+    except Exception:
+        mismatches.append(dict(oracle_fail=False, what="execution stream crashed", harness_error=traceback.format_exc()[-2000:]))
+
     # coverage numbers
     nontrivial = 0
     hist = {}
@@ -275,5 +285,18 @@ def replay(ctx, payload):
         got = public_call(T, case["fn"], case["req"], [tuple(o) for o in case["opt"]])
         print(f"replay {case.get('call')}: raised {got[0]} {got[1][:200]}")
         return 1 if got[0] in ("AmbiguousLookupError", "NotFoundLookupError") else 0
+    if isinstance(case, str):
+        # execution stream: rebuild the call from its text with the seed of the replay file
+        import numpy as np
+        import c04_exec
+        import c04_trace as TC
+        c2 = core.Ctx("C04", ctx.tier, int(payload.get("seed", 0)))
+        ops = c04_exec.operators(np.random.default_rng(c2.seed + 404))
+        for text, f in c04_exec.call_list(c2, ops):
+            if text == case:
+                log, e, msg = TC.run_traced(f, [], {}, 10.0)
+                bad = [r for r in log if r.err in ("AmbiguousLookupError", "NotFoundLookupError")]
+                print(f"replay {case}: raised {e} {msg[:200]}; lookup failures at depth {[ (r.fn, r.depth, r.err) for r in bad]}")
+                return 1 if bad or e in ("AmbiguousLookupError", "NotFoundLookupError") else 0
     print("replay: no executable case in this file (broken theorem / correspondence); run ./check C04")
     return 1
